@@ -22,7 +22,7 @@ import random
 import datetime
 import time
 
-from urllib.parse import urlsplit, quote, quote_plus, unquote, unquote_plus
+from urllib.parse import urlsplit, urljoin, quote, quote_plus, unquote, unquote_plus
 
 try:
     import simplejson as json
@@ -968,6 +968,14 @@ class Patron(object):
             hostname = splits.hostname
             port = splits.port
             scheme = splits.scheme
+            path = splits.path
+            if hostname is None:  # relative location so same scheme host port
+                hostname = self.requester.hostname
+                port = self.requester.port
+                scheme = self.requester.scheme
+                if not path.startswith(u'/'):  # resolve against path of redirected request
+                    base = u'http://h' + quote(self.requester.path)  # dummy authority
+                    path = unquote(urlsplit(urljoin(base, quote(path))).path)
             scheme = 'https' if scheme.lower() == 'https' else 'http'
             if scheme == 'https':
                 secured = True  # use tls socket connection
@@ -976,7 +984,6 @@ class Patron(object):
                 secured = False # non tls socket connection
                 defaultPort = 80
             hostname, port = httping.normalizeHostPort(hostname, port=port, defaultPort=defaultPort)
-            path = splits.path
             query = splits.query
             fragment = splits.fragment
 
